@@ -1047,6 +1047,82 @@ def r15_21(ctx, rep):
                "`%s` is not preceded by a comparison of the equation's size with the variables' sizes" % norm(t.ast)[:70])
 
 
+@SPEC.rule(
+    "R15.22",
+    "the replacement vectors of the affine collapse have one entry per scalar unknown: nowhere in a method of Model is a row count alone "
+    "(`size1()`, `rows()`, `shape[0]`) used as the width of a variable (in a sum, an offset, a slice or the size of a new symbol) — with "
+    "`reduce_affine_expression` and an unexpanded `Real M[2,3]` the state vector has 2 entries for 6 unknowns and no residual can be built "
+    "(zero-count lint with a positive self-test)",
+)
+def r15_22(ctx, rep):
+    from ._literal import _selftest_row_counts, row_counts_used_as_widths
+    R = "R15.22"
+    if not _selftest_row_counts():
+        raise AnalysisError(R, "self-test of the row-count lint failed")
+    ms = ctx.methods(MODEL, "Model", R)
+    if len(ms) < 10:
+        raise MechanismMissing(R, "Model has fewer than 10 methods")
+    for name, f in sorted(ms.items()):
+        hits = row_counts_used_as_widths(f)
+        if hits or name in ("simplify", "_simplify_once", "check_balanced"):
+            rep.ob(R, MODEL + ":Model." + name, "no row count stands for an element count", not hits,
+                   "%s: the number of scalar elements of a symbol is numel() (= size1() * size2())" % "; ".join("`%s`" % t for _l, t in hits[:3]))
+
+
+@SPEC.rule(
+    "R15.23",
+    "the table of derivative variables is keyed by the STATE's name everywhere: in Model._simplify_once, a table that is built as "
+    "`zip(<states>.keys(), self.der_states)` is only ever subscripted (read, stored to, popped) with the name of a state — never with the "
+    "name of a symbol created as `der(..)` — and a store into it sits next to the store of the same key into the state table; a promoted "
+    "algebraic variable filed under `der(w)` is not found when its derivative is needed again (KeyError) and is never popped when w is eliminated",
+)
+def r15_23(ctx, rep):
+    R = "R15.23"
+    fn = ctx.func(MODEL, "Model._simplify_once", R)
+    site = MODEL + ":Model._simplify_once"
+    tables = {}
+    for st in ast.walk(fn):
+        if isinstance(st, ast.Assign) and len(st.targets) == 1 and isinstance(st.targets[0], ast.Name) and isinstance(st.value, ast.Call):
+            z = [c for c in ast.walk(st.value) if isinstance(c, ast.Call) and is_name(c.func, "zip") and len(c.args) == 2]
+            for c in z:
+                a0, a1 = norm(c.args[0]), norm(c.args[1])
+                if a0.endswith(".keys()") and a1 == "self.der_states":
+                    tables[st.targets[0].id] = a0[:-len(".keys()")]
+    if not tables:
+        raise MechanismMissing(R, "the derivative table keyed by state names (OrderedDict(zip(<states>.keys(), self.der_states))) was not found in _simplify_once")
+    der_syms = set()
+    for st in ast.walk(fn):
+        if isinstance(st, ast.Assign) and len(st.targets) == 1 and isinstance(st.targets[0], ast.Name) and isinstance(st.value, ast.Call) \
+                and (call_name(st.value) or "").endswith("MX.sym") and st.value.args and "der(" in norm(st.value.args[0]):
+            der_syms.add(st.targets[0].id)
+    n = 0
+    from ..pyutil import stmt_list_of
+    for t, state_table in tables.items():
+        for x in ast.walk(fn):
+            key = None
+            if isinstance(x, ast.Subscript) and is_name(x.value, t):
+                key = x.slice
+            elif isinstance(x, ast.Call) and isinstance(x.func, ast.Attribute) and is_name(x.func.value, t) and x.func.attr in ("pop", "get", "__getitem__", "setdefault") and x.args:
+                key = x.args[0]
+            if key is None:
+                continue
+            n += 1
+            bad = sorted({y.id for y in ast.walk(key) if isinstance(y, ast.Name) and y.id in der_syms})
+            rep.ob(R, site, "`%s[%s]` is keyed by a state's name" % (t, norm(key)[:40]), not bad,
+                   "the key is built from `%s`, a symbol created as der(..): the table is keyed by the names of the states (it is zipped with %s.keys())" % (", ".join(bad), state_table))
+            if isinstance(x, ast.Subscript) and isinstance(x.ctx, ast.Store):
+                st = x
+                while st is not None and not isinstance(st, ast.stmt):
+                    st = getattr(st, "_parent", None)
+                sib = stmt_list_of(st) or []
+                keys = [norm(y.targets[0].slice) for y in sib if isinstance(y, ast.Assign) and isinstance(y.targets[0], ast.Subscript) and is_name(y.targets[0].value, state_table)]
+                if keys:
+                    rep.ob(R, site, "store into `%s` uses the key of the store into `%s` next to it" % (t, state_table), norm(key) in keys,
+                           "`%s[%s]` is filed under another key than `%s[%s]`" % (t, norm(key)[:40], state_table, keys[0][:40]))
+    if n < 3:
+        raise MechanismMissing(R, "fewer than 3 accesses of the derivative table found")
+
+
 # -- seeded variants ---------------------------------------------------------
 from ._mut import delete_stmt_where, replace_in_func, replace_stmt_where  # noqa: E402
 
@@ -1200,7 +1276,7 @@ def _m_fresh(mod):
 
 @SPEC.mutant("other end of the alias not checked against the name tables", MODEL, "R15.7", "alias registration")
 def _m_univ(mod):
-    return mod if delete_stmt_where(mod, "Model._simplify_once", lambda st: isinstance(st, ast.If) and norm(st.test).endswith(".name() not in all_states")) else None
+    return mod if delete_stmt_where(mod, "Model._simplify_once", lambda st: isinstance(st, ast.If) and norm(st.test).endswith(".name() not in all_states"), simple_only=False) else None
 
 
 @SPEC.mutant("already-handled test before the sign is stripped", MODEL, "R15.3", "canonical_variables")
@@ -1327,6 +1403,32 @@ def _m_constant_not_registered(mod):
                             if i + 1 < len(lst) and "self.constants.append" in norm(lst[i + 1]):
                                 st.body.append(lst.pop(i + 1))
                                 return True
+        return False
+
+    return mod if replace_in_func(mod, "Model._simplify_once", edit) else None
+
+
+@SPEC.mutant("affine state vectors sized by rows", MODEL, "R15.22", "no row count stands for an element count")
+def _m_vector_rows(mod):
+    def edit(fn):
+        for c in ast.walk(fn):
+            if isinstance(c, ast.Call) and (call_name(c) or "").endswith("MX.sym") and c.args and "states_vector" in norm(c.args[0]):
+                for x in ast.walk(c):
+                    if isinstance(x, ast.Attribute) and x.attr == "numel":
+                        x.attr = "size1"
+                        return True
+        return False
+
+    return mod if replace_in_func(mod, "Model._simplify_once", edit) else None
+
+
+@SPEC.mutant("promoted derivative filed under the derivative's own name", MODEL, "R15.23", "is keyed by a state's name")
+def _m_der_key(mod):
+    def edit(fn):
+        for st in ast.walk(fn):
+            if isinstance(st, ast.Assign) and isinstance(st.targets[0], ast.Subscript) and is_name(st.targets[0].value, "der_states") and "Variable(" in norm(st.value):
+                st.targets[0].slice = ast.parse("der_sym.name()", mode="eval").body
+                return True
         return False
 
     return mod if replace_in_func(mod, "Model._simplify_once", edit) else None
